@@ -131,6 +131,10 @@ def check_input(input_data, y=None, preprocessor=None,
                              ensure_min_features=0, ensure_min_samples=0,
                              **{_ALL_FINITE: False})
   else:
+    if np.isscalar(input_data) or getattr(input_data, 'ndim', None) == 0:
+      # check_X_y would raise a TypeError (a scalar has no length)
+      raise ValueError("Expected an array-like of points or tuples{}, got a "
+                       "scalar instead: {}.".format(context, input_data))
     input_data, y = check_X_y(input_data, y, ensure_2d=False, allow_nd=True,
                               copy=False, accept_sparse=True, dtype=None,
                               ensure_min_features=0, ensure_min_samples=0,
